@@ -175,7 +175,7 @@ USERDB_DOCS = ['Some \\emph{important} text.', '\\emph', '\\textbf\\emph{x}', '$
                '\\begin{center}c \\textit{i}\\end{center}~\\alpha\\beta x', '\\textbf', '\\begin{center}', '~~', '\\emph{\\textbf{\\textit{}}}']
 
 def to_line(c):
-    if c.get('deep') or c.get('userdb') or c.get('legacy') or c.get('subclass'):
+    if c.get('deep') or c.get('userdb') or c.get('legacy') or c.get('subclass') or c.get('inputdir') is not None:
         return None
     if c['o'].get('fill') is not None:
         return None
@@ -184,6 +184,30 @@ def to_line(c):
     return '\t'.join(['L2T', opts_wire(c['o']), lib_wire(c['s']), wire(c['s'])])
 
 # ---------------------------------------------------------------- implementation + oracle
+
+_INPUT_DIR = {}
+import os as _os, atexit as _atexit
+_SESSION_PID = _os.getpid()
+def _sweep_input_dirs():
+    # pool workers are forked from the session process and do not run exit handlers: the session process removes
+    # every directory that carries its pid
+    if _os.getpid() == _SESSION_PID:
+        import glob, shutil, tempfile
+        for d in glob.glob(_os.path.join(tempfile.gettempdir(), 'pylxc07-%d-*' % _SESSION_PID)):
+            shutil.rmtree(d, ignore_errors=True)
+_atexit.register(_sweep_input_dirs)
+
+def _input_dir():
+    """a directory with a few input files, one per process (outside /repo and /verif; removed by the session process at exit)"""
+    import os, tempfile, atexit, shutil
+    if _INPUT_DIR.get('pid') != os.getpid():
+        d = tempfile.mkdtemp(prefix='pylxc07-%d-' % _SESSION_PID)
+        for name, text in [('chapter.tex', 'Included \\emph{text} $x$ %c\nmore'), ('empty.tex', ''), ('nested.tex', 'N \\input{chapter} N'),
+                           ('b.latex', '\\begin{center}z\\end{center}'), ('bad.tex', 'unclosed {group \\emph')]:
+            with open(os.path.join(d, name), 'w') as f:
+                f.write(text)
+        _INPUT_DIR.update(pid=os.getpid(), dir=d)
+    return _INPUT_DIR['dir']
 
 class _CallableRepl(object):
     """a replacement given as an object with __call__ (no __code__, no __name__)"""
@@ -227,6 +251,21 @@ def run_impl(c):
         kw = opts_kwargs(o)
         if c.get('userdb'):
             kw['latex_context'] = user_textdb()
+        if c.get('inputdir') is not None:
+            # real files: set_tex_input_directory(dir, latex_walker_init_args=<documented dictionary of LatexWalker arguments>)
+            from pylatexenc import latexwalker as _lw
+            iargs = {'none': None, 'empty': {}, 'strict': {'tolerant_parsing': False}, 'tol': {'tolerant_parsing': True},
+                     'ctx': {'latex_context': _lw.get_default_latex_context_db()},
+                     'ctxtol': {'latex_context': _lw.get_default_latex_context_db(), 'tolerant_parsing': True}}[c['inputdir']]
+            l2t = LatexNodes2Text(**kw)
+            if iargs is None:
+                l2t.set_tex_input_directory(_input_dir())
+            else:
+                l2t.set_tex_input_directory(_input_dir(), latex_walker_init_args=iargs)
+            r = l2t.latex_to_text(c['s'])
+            if not isinstance(r, str):
+                raise TypeError('not a str')
+            return {'out': 'ok ' + show_str(r), 'fail': None, 'sig': 'ok-inputdir-%s|%s|nofill' % (c['inputdir'], o['mm'])}
         if c.get('subclass'):
             # the documented hook: read_input_file() "may be overridden to implement a custom lookup mechanism"
             class _L2T(LatexNodes2Text):
@@ -325,6 +364,12 @@ def cases(tier, rng):
     for s in ['\\input{a}', 'x \\input{a.tex} y', '\\include{b}$\\input{c}$', '\\input', '\\input{}', '{\\input{a}\\input{a}}']:
         for o in sweep[::5]:
             yield {'s': s, 'o': o, 'subclass': True}
+    for s in ['Before. \\input{chapter} After.', '\\include{chapter.tex}', '$a$ \\input{nested}', '\\input{b}', '\\input{empty}x', '\\input{bad}', '\\input{missing}', '\\input{../x}']:
+        for how in ('none', 'empty', 'strict', 'tol', 'ctx', 'ctxtol'):
+            if how == 'strict' and 'bad' in s:
+                continue        # strict parsing of the input file was asked for: its parse error is the caller's choice
+            for o in sweep[::7]:
+                yield {'s': s, 'o': o, 'inputdir': how}
     for s in USERDB_DOCS + ['a--b``c', '``', '--']:
         for leg in ('macro', 'env', 'both'):
             yield {'s': s, 'o': dict(DEFAULT_OPTS), 'legacy': leg}
